@@ -457,6 +457,7 @@ Definition ac_step (prec : Z) (actbl : ctbl) (v : Z) (acc : cerr + (bitstate * Z
         else
           (* "while (r >= 16 * 16) { r -= 16 * 16; PUT_BITS(ehufco[0xf0], ehufsi[0xf0]) }" *)
           let nz := r / 256 in
+          if (g_MISSING_ZRL_EOB_CHECK =? 1) && (0 <? nz) && (nthZ (ehufsi actbl) 240 =? 0) then inl MissingCode else
           let st1 := fold_left (fun s _ => put_bits s (nthZ (ehufco actbl) 240) (nthZ (ehufsi actbl) 240))
                                (seq 0 (Z.to_nat nz)) st in
           let r1 := r - nz * 256 + nb in
@@ -482,7 +483,8 @@ Definition encode_one_block (prec : Z) (dctbl actbl : ctbl) (st : bitstate) (las
             match fold_left (fun acc v => ac_step prec actbl v acc) acs (inr (st1, 0)) with
             | inl e => inl e
             | inr (st2, r) =>
-                inr (if r >? 0 then put_bits st2 (nthZ (ehufco actbl) 0) (nthZ (ehufsi actbl) 0) else st2)
+                if (g_MISSING_ZRL_EOB_CHECK =? 1) && (r >? 0) && (nthZ (ehufsi actbl) 0 =? 0) then inl MissingCode
+                else inr (if r >? 0 then put_bits st2 (nthZ (ehufco actbl) 0) (nthZ (ehufsi actbl) 0) else st2)
             end
         end
   end.
